@@ -8,25 +8,32 @@
 (*   - the published anchors,                                                                 *)
 (*   - the shape facts: water density rises up to its maximum at 3.98 C and falls after it,   *)
 (*     viscosity and permittivity fall strictly with temperature.                             *)
-(* events: {k:"sample", fn, T:[n,d], P:[n,d], w:[n,d], y:<int>, qexp:<int>, warned:<bool>}    *)
-(*         {k:"result", n:<number of samples>}          observed value = y / 10^qexp          *)
+(* events: {k:"sample", fn, mode, arr, T:[n,d], P:[n,d], w:[n,d], y:<int>, qexp:<int>,           *)
+(*          warned:<bool>}       mode = unitless | units;  arr = the sample is an element of an   *)
+(*         {k:"result", n:<number of samples>, arr, warned}      array-valued call                *)
+(*         observed value = y / 10^qexp in the documented result unit                            *)
 EXTENDS PhysProps, IOUtils
 
 Traces == JsonDeserialize(IOEnv.TRACE_FILE)
 
-VARIABLES tid, pos, sub, last, verdict
-tvars == <<vars, tid, pos, sub, last, verdict>>
+VARIABLES tid, pos, sub, last, anyOut, anyNotNo, verdict
+tvars == <<vars, tid, pos, sub, last, anyOut, anyNotNo, verdict>>
 
 Ev == Traces[tid][pos]
 NoLast == [fn |-> "none", T |-> QZero, y |-> 0]
 
 TInit == Init /\ tid \in 1..Len(Traces) /\ pos = 1 /\ sub = 0 /\ last = NoLast /\ verdict = "none"
+         /\ anyOut = FALSE /\ anyNotNo = FALSE
 
 ArgsOf(e) == [NoArgs EXCEPT !.T = Norm(<<e.T[1], e.T[2]>>), !.P = Norm(<<e.P[1], e.P[2]>>), !.w = Norm(<<e.w[1], e.w[2]>>)]
 ObsQ(e) == DQ(DInt(e.y), DInt(IPow(10, e.qexp)))
 
-WarnOK(e) == /\ (WarnExpect(fn, args) = "yes" => e.warned)
-             /\ (WarnExpect(fn, args) = "no" => ~e.warned)
+(* a series is either one call per sample (each with its own warning flag) or ONE call with the *)
+(* whole temperature array (e.arr): then the flag belongs to the call and is judged at the end:  *)
+(* a warning iff some element lies outside the range                                            *)
+WarnOK(e) == e.arr \/ (/\ (WarnExpect(fn, args) = "yes" => e.warned)
+                       /\ (WarnExpect(fn, args) = "no" => ~e.warned))
+ArrayWarnOK(e) == e.arr => ((anyOut => e.warned) /\ (~anyNotNo => ~e.warned))
 (* |obs - law| <= 2 quanta for the exact laws *)
 ExactOK(e) ==
     fn \in {"water_density", "sulfuric_acid_density"} =>
@@ -68,26 +75,29 @@ OrderOK == last.fn = fn => QLt(last.T, args.T)
 TStep ==
     /\ verdict = "none" /\ pos <= Len(Traces[tid])
     /\ IF Ev.k = "result"
-       THEN /\ sub = 0 /\ Ev.n = ncalls
-            /\ verdict' = "accept" /\ pos' = pos + 1 /\ UNCHANGED <<vars, sub, last>>
+       THEN /\ sub = 0 /\ Ev.n = ncalls /\ ArrayWarnOK(Ev)
+            /\ verdict' = "accept" /\ pos' = pos + 1 /\ UNCHANGED <<vars, sub, last, anyOut, anyNotNo>>
        ELSE /\ Ev.k = "sample" /\ verdict' = "none"
-            /\ CASE sub = 0 -> Choose(Ev.fn, ArgsOf(Ev)) /\ sub' = 1 /\ UNCHANGED <<pos, last>>
-                 [] sub = 1 -> Call(Md("unitless", FALSE)) /\ sub' = 2 /\ UNCHANGED <<pos, last>>
+            /\ CASE sub = 0 -> Choose(Ev.fn, ArgsOf(Ev)) /\ sub' = 1 /\ UNCHANGED <<pos, last, anyOut, anyNotNo>>
+                 [] sub = 1 -> Call(Md(Ev.mode, FALSE)) /\ sub' = 2 /\ UNCHANGED <<pos, last, anyOut, anyNotNo>>
                  [] sub = 2 -> /\ OrderOK /\ WarnOK(Ev) /\ ExactOK(Ev) /\ AnchorOK(Ev) /\ ShapeOK(Ev)
                                /\ Again /\ sub' = 0 /\ pos' = pos + 1
                                /\ last' = [fn |-> fn, T |-> args.T, y |-> Ev.y]
+                               /\ anyOut' = (anyOut \/ TOutside(fn, args))
+                               /\ anyNotNo' = (anyNotNo \/ WarnExpect(fn, args) # "no")
     /\ UNCHANGED tid
 
 TReject ==
     /\ verdict = "none" /\ ~ENABLED TStep
-    /\ verdict' = "reject" /\ UNCHANGED <<vars, tid, pos, sub, last>>
+    /\ verdict' = "reject" /\ UNCHANGED <<vars, tid, pos, sub, last, anyOut, anyNotNo>>
 
 TNext == TStep \/ TReject
 
 Clause ==
     IF pos > Len(Traces[tid]) THEN "no-result-event"
     ELSE LET e == Ev IN
-      IF e.k = "result" THEN "count"
+      IF e.k = "result" THEN (IF sub = 0 /\ e.n = ncalls THEN (IF e.warned THEN "spurious-warning" ELSE "missing-warning")
+                              ELSE "count")
       ELSE IF sub = 0 THEN "step:choose"
       ELSE IF sub = 1 THEN "step:call"
       ELSE IF ~OrderOK THEN "step:order"
@@ -97,7 +107,7 @@ Clause ==
       ELSE "shape"
 
 NoPoints == {}
-OnlyUnitless == {"unitless"}
+OnlyUnitless == {"unitless", "units"}
 Verdict == verdict # "none" =>
     PrintT(<<"VERDICT", tid, verdict, pos, IF verdict = "accept" THEN "" ELSE Clause>>)
 =============================================================================
